@@ -1667,7 +1667,7 @@ func (c *control) dirIter(colon, at bool, params []any) {
 	case colon && at:
 		// The iteration consumes format arguments that must be lists.
 		for ; 0 < n; n-- {
-			if (len(c.args) <= c.argPos && !atLeastOnce) || c2.stop {
+			if ((c.argPos < 0 || len(c.args) <= c.argPos) && !atLeastOnce) || c2.stop {
 				break
 			}
 			c2.args = slip.List{}
